@@ -17,6 +17,8 @@ AlNone == {<<>>}
 AlSome == {<<>>, <<"al1">>, <<"al1", "al2">>}
 AlTwo == {<<>>, <<"al1">>}
 Lim01 == {0, 1}
+Lim1 == {1}
+AccOne == {{"x1", "x2"}}
 Missing == {"missing"}
 NoExtra == {}
 
